@@ -96,7 +96,7 @@ theorem Cond_applies_eq (E : Ext) (hE : ExtOk E) (ev : PJ) (ctx : Ctx)
       Ruma.Spec.Push.condHolds]
     cases Ruma.Spec.Push.lookupStr ev Ruma.Spec.Push.keyContentBody with
     | none => rfl
-    | some v => simp [matchesPattern_spec E hE, paramsOf]
+    | some v => simp [containsWord_spec E, paramsOf]
   | roomMemberCount is =>
     simp only [Cond.applies, hself, Bool.false_eq_true, if_false, memberCount_eq,
       Ruma.Spec.Push.condHolds]
